@@ -118,3 +118,8 @@ func FP(a int) *T { Counter++; return nil }
 
 //go:noinline
 func FSP(a int) (int, S3, *T) { Counter++; return -1, S3{}, nil }
+
+// GK is generic but its signature does not mention T: both instantiations have the Go type func(int) int
+//
+//go:noinline
+func GK[T any](a int) int { Counter++; return -7600 - a }
